@@ -360,7 +360,7 @@ def run(tier, seed):
     t0 = time.time()
     viol = []
     cov = {'parts': {}}
-    depth = 6 if tier == 'quick' else 8
+    depth = 6 if tier == 'quick' else 7
     out = {}
 
     def go():
@@ -375,7 +375,7 @@ def run(tier, seed):
                      'replay': {'kind': 'bfs', 'history': v['history']}})
     cfgs = par_configs(tier)
     bound = 2 if tier == 'quick' else 3
-    res = explore.run_jobs(_par_job, [(c, bound, 300000) for c in cfgs], chunksize=4)
+    res = explore.run_jobs(_par_job, [(c, (2 if len(c['ops']) == 3 else bound), 300000) for c in cfgs], chunksize=2)
     tot = explore.Stats()
     for cfg, st in res:
         tot.merge(st)
